@@ -22,7 +22,7 @@ func init() {
 	property("C18",
 		"Static conformance of the no-crash / termination / error-location mechanisms: (a) the only reachable panic is the invalid-UTF-8 panic in the lexer and its guard implies an invalid encoding (RuneError with width 1); no unchecked type assertion, no integer division, log.Fatal only in main; (b) every token loop of the parser consumes a token on every path of an iteration and cannot continue at exhausted input (abstract evaluation with every window token = EOF, callee summaries 'errors at EOF'); every lexer loop reads a character per iteration and its guard is false at end of input; other loops are ranges or bounded counters; (c) every index/slice expression is discharged by a dominating comparison (range key, i < len, len > 0, i == len-1, next = i+1 < len) or by a reviewed exemption naming one function and operand; map updates target maps created by the same component; (d) every error returned by a repo function is returned or tested, and the failure branch returns a non-nil error (except the two environment callees whose failure is by design only logged); (e) error ranges are ordered (start token is the current or an earlier captured token) and no error is built from a synthesised or possibly unassigned token; (f) the environment-error flag only ever enables an error return or a log line, and lint construction equals normal construction with the flag off; (g, h) every lexer arm consumes a character and token consumption does not depend on environment or data; (i) the token-window vocabulary the loop rules rely on is what it says (nextToken shifts the window by one, xTokenIs tests its own slot, expectPeek advances once exactly on a match); a pointer result of a fallible call is looked into only after its error was tested; counters of counter loops move on every back edge. NOT decided: stack depth for pathologically nested input, the wall-clock bound, FormatText's string-offset loop. Lazily initialised pointer fields are set on every path before use (C18.j); allocation sizes are bounded by the input (C18.k); every parser error is located (C18.e); every recursive cycle of the parser consumes a token and counter bounds are exit tests (C18.b).",
 		[]string{"unicode.IsLetter(0) = unicode.IsDigit(0) = unicode.IsSpace(0) = false (the lexer's own predicates are evaluated at 0 from their definitions)", "once the lexer has returned EOF it returns EOF forever (readChar at end of input leaves ch = 0 and changes no position)", "exemptions listed in /verif/exemptions.json (each names one function and operand with a reason)", "configuration values (command_config.json) are outside the property's quantifier"},
-		"C18.a", "C18.b", "C18.c", "C18.d", "C18.e", "C18.f", "C18.g", "C18.h", "C18.i", "C16.c", "C12.a", "C12.b", "C01.c", "C01.d", "C19.b", "C16.d", "C18.j", "C18.k", "C13.a", "C13.b", "C14.d", "C18.l", "C18.m", "C14.a", "C07.a", "C04.f")
+		"C18.a", "C18.b", "C18.c", "C18.d", "C18.e", "C18.f", "C18.g", "C18.h", "C18.i", "C16.c", "C12.a", "C12.b", "C01.c", "C01.d", "C19.b", "C16.d", "C18.j", "C18.k", "C13.a", "C13.b", "C14.d", "C18.l", "C18.m", "C14.a", "C07.a", "C04.f", "C11.a", "C01.e")
 
 	register(&Rule{ID: "C18.a", Doc: "no reachable crash construct except the guarded invalid-UTF-8 panic", Floor: 4, Run: c18a})
 	register(&Rule{ID: "C18.b", Doc: "loops terminate: progress on every path, no continuation at exhausted input", Floor: 68, Run: c18b})
@@ -1529,6 +1529,23 @@ func c18e(c *Ctx) {
 // ---- C18.f ------------------------------------------------------------------------------
 
 func c18f(c *Ctx) {
+	// the lint parser is the ordinary parser with the environment switched off — and nothing else
+	// changed: what NewLintParser is given (the lexer, the command configuration) is what it
+	// hands to New
+	if nl, nw := c.Fn("parser.NewLintParser"), c.Fn("parser.New"); nl != nil && nw != nil {
+		for _, ci := range callsToIn(nl, nw) {
+			args := ci.Common().Args
+			for i, p := range nl.Params {
+				okArg := i < len(args) && args[i] == ssa.Value(p)
+				c.Check(okArg, fmt.Sprintf("NewLintParser/hands-on/%s", p.Name()), c.W.Pos(ci.Pos()), "NewLintParser passes "+p.Name()+" on to New", "NewLintParser does not pass its "+p.Name()+" on to New (it passes "+func() string {
+					if i < len(args) {
+						return pretty(c.term(nl, args[i]))
+					}
+					return "nothing"
+				}()+"): lint mode would parse with another configuration than normal mode and reject programs normal mode accepts")
+			}
+		}
+	}
 	c18fEnvErrors(c)
 	n := 0
 	for _, fn := range c.W.FuncsOf("parser") {
